@@ -9,7 +9,7 @@ LEVEL = "exploration"
 TECHNIQUE = "runtime reference-model monitor: NumPy shadow array with written-mask, bit-exact comparison of every read path after every write/append/resize/reopen step"
 RULE = ("Case = one data array driven through creation (3 paths) and 0-8 steps from {whole write, region assign, "
         "append along any axis, shrink, grow, close+reopen RO/RW}; after every step every read path (whole [:], [...], "
-        "np.array, read_direct, one element, one region, shape/len/size/dtype/data_type) is compared with the model. "
+        "np.array, read_direct, iteration, get_slice by index, the .data alias, one element, one region, shape/len/size/dtype/data_type) is compared with the model; appends also along negative axes (NumPy's meaning or a clean refusal) and axes the array does not have (stored data must stay). "
         "Generated over 12 element types x rank 1-4 x extents 0-4 x 27 file/block/array compression triples, values "
         "from extremes (iinfo min/max, NaN, +-inf, -0.0, subnormal, non-ASCII/empty/long text).  Distinct by (dtype, "
         "rank, has zero extent, compression triple, creation path, multiset of step kinds); trivial = none.")
